@@ -40,13 +40,13 @@ class Lifecycle(Scenario):
                 self.counter += 1
                 self.log.append(("poll", "src", self.loop.time(), self.counter, self.ref_started))
                 return self.counter
-            self.source = Stream.from_periodic(cb, poll_interval=POLL, loop=self.ioloop, asynchronous=True)
+            self.source = Stream.from_periodic(cb, poll_interval=POLL, loop=self.ioloop, asynchronous=True, start=bool(p.get("autostart")))
         elif kind == "from_iterable":
             def gen():
                 for i in range(p["n"]):
                     self.log.append(("poll", "src", self.loop.time(), i, self.ref_started))
                     yield i
-            self.source = Stream.from_iterable(gen(), loop=self.ioloop, asynchronous=True)
+            self.source = Stream.from_iterable(gen(), loop=self.ioloop, asynchronous=True, start=bool(p.get("autostart")))
         elif kind == "from_textfile":
             self.file = io.StringIO("".join("r%d\n" % i for i in range(p["n"])))
             scen = self
@@ -64,6 +64,10 @@ class Lifecycle(Scenario):
         else:
             raise KeyError(kind)
         self.source.sink(self.make_sink_fn(p["kind"], "S"))
+        if p.get("autostart"):
+            # started from the constructor (start=True): the first cycle is already scheduled
+            self.log.append(("start", "src", self.loop.time(), False))
+            self.ref_started = True
         if p.get("marks"):
             self.clock_marks(p["marks"])
 
@@ -182,9 +186,10 @@ class Lifecycle(Scenario):
 
 
 def factory(key):
-    source, kind, calls, n, horizon = key
+    source, kind, calls, n, horizon = key[:5]
+    auto = len(key) > 5 and key[5] == "autostart"
     marks = tuple(0.5 * i for i in range(1, int(horizon * 2) + 1))
-    return lambda: Lifecycle(source=source, kind=kind, calls=calls, n=n, horizon=horizon, marks=marks)
+    return lambda: Lifecycle(source=source, kind=kind, calls=calls, n=n, horizon=horizon, marks=marks, autostart=auto)
 
 
 def plan(ctx):
@@ -205,6 +210,8 @@ def plan(ctx):
         jobs.append((("from_textfile", "future", 4, 2, 0.5), 0))
         for src, n, h in (("from_periodic", 0, 1.5), ("from_iterable", 3, 0.5), ("from_textfile", 3, 1.0)):
             jobs.append(((src, "sync", 4, n, h), 1))
+        jobs.append((("from_periodic", "future", 3, 0, 1.5, "autostart"), 1))
+        jobs.append((("from_iterable", "future", 3, 3, 0.5, "autostart"), 1))
     return jobs
 
 
